@@ -23,6 +23,10 @@ def run_check(prop, tier, repo=None):
     except ModuleNotFoundError:
         print(f'ANALYSIS-ERROR property={prop}: no rule set')
         return 2
+    except Exception:
+        traceback.print_exc()
+        print(f'ANALYSIS-ERROR property={prop}: the checker itself failed to load')
+        return 2
     if tier == 'thorough':
         os.environ['CARDVERIF_DEEP'] = '1'
     try:
